@@ -62,6 +62,23 @@ def _cond(c):
 def _envmap(m):
     return {k: v for k, v in m.items() if v is not None}
 
+def _certainly_nonreloc(model, recipe_name, body):
+    """True if every package that runs the scripts of this body is non-relocatable by an explicit setting at the
+    recipe / multiPackage level (classes are never considered: the inheriting recipe may override them)"""
+    for r in model["recipes"]:
+        if r["name"] != recipe_name:
+            continue
+        main = r["body"].get("relocatable")
+        subs = list((r.get("multi") or {}).values())
+        if body is r["body"]:
+            if not subs:
+                return main is False
+            return all((b.get("relocatable") if b.get("relocatable") is not None else main) is False for b in subs)
+        for b in subs:
+            if body is b:
+                return (b.get("relocatable") if b.get("relocatable") is not None else main) is False
+    return False
+
 def body_yaml(body, model, recipe_name):
     out = {}
     if body.get("root"): out["root"] = True
@@ -100,8 +117,17 @@ def body_yaml(body, model, recipe_name):
             fid = sp.get(slot)
             if fid is not None:
                 kind = "plain"
-                if step == "package" and slot == "script" and body.get("tooldirs"): kind = "tooldirs"
-                if step == "build" and slot == "script" and body.get("fp"): kind = "fp"
+                if step == "package" and slot == "script" and body.get("tooldirs"): kind += "+tooldirs"
+                if step == "build" and slot == "script" and body.get("fp") and \
+                        recipe_name not in (model.get("no_host_taint") or ()): kind += "+fp"
+                if model.get("record_pwd"):
+                    # artifact mode (C07): directories of (possibly weak) tools in PATH are recorded by name only; packages
+                    # that are certainly not relocatable record where they were built - unless they are consumed through a
+                    # tool, whose host dependencies deliberately do not propagate to the user's Build-Id
+                    kind += "+npc"
+                    if step != "checkout" and slot == "script" and recipe_name not in (model.get("no_host_taint") or ()) \
+                            and _certainly_nonreloc(model, recipe_name, body):
+                        kind += "+nr"
                 inc = (model.get("fraginc") or {}).get(str(fid))
                 if inc and inc[1] not in (model.get("inc") or {}): inc = None
                 out[step + key] = S.recorder(fid, step, kind, inc)
